@@ -291,6 +291,8 @@ type sceneObj struct {
 	Lo []int     `json:"lo"`
 	Hi []int     `json:"hi"`
 	Xf []sceneXf `json:"xf"`
+	// Bare: the part has no material of its own (a ColliderObject meant to be coloured later)
+	Bare bool `json:"bare"`
 }
 type sceneRay struct {
 	O     []int `json:"o"`
@@ -322,6 +324,9 @@ func sceneBuild(objs []sceneObj, site string, rng *rand.Rand) render3d.Object {
 			Collider: &model3d.Rect{MinVal: half(o.Lo), MaxVal: half(o.Hi)},
 			Material: &render3d.LambertMaterial{EmissionColor: render3d.NewColor(float64(i + 1))},
 		}
+		if o.Bare {
+			obj = &render3d.ColliderObject{Collider: &model3d.Rect{MinVal: half(o.Lo), MaxVal: half(o.Hi)}}
+		}
 		for _, x := range o.Xf {
 			switch x.K {
 			case "t":
@@ -332,6 +337,8 @@ func sceneBuild(objs []sceneObj, site string, rng *rand.Rand) render3d.Object {
 				obj = render3d.Scale(obj, 0.5)
 			case "rz":
 				obj = render3d.Rotate(obj, model3d.Z(1), math.Pi/2)
+			case "rx":
+				obj = render3d.Rotate(obj, model3d.X(1), math.Pi/2)
 			case "sw":
 				obj = render3d.MatrixMultiply(obj, &model3d.Matrix3{0, 1, 0, 1, 0, 0, 0, 0, 1})
 			}
@@ -366,8 +373,9 @@ func sceneRun(id int, site string, rng *rand.Rand, nrays int) sceneRec {
 			o.Hi = append(o.Hi, lo+4*(1+rng.Intn(2)))
 		}
 		halvings := 0
-		for k := rng.Intn(3); k > 0; k-- {
-			kinds := []string{"t", "s2", "sh", "rz", "sw"}
+		o.Bare = rng.Intn(4) == 0
+		for k := rng.Intn(4); k > 0; k-- {
+			kinds := []string{"t", "s2", "sh", "rz", "sw", "rx", "rx"}
 			x := sceneXf{K: kinds[rng.Intn(len(kinds))], O: []int{0, 0, 0}}
 			if x.K == "sh" {
 				if halvings == 1 {
